@@ -15,7 +15,7 @@
 //!   ring        poll(2), timeout 0, on `Runtime::as_raw_fd()`            -> ring=readable|not
 //!   clear       read the registered eventfd (compio-compat `clear`)      -> ok
 //!   twake <t>   `wake_by_ref` of task t's waker on ANOTHER thread (joined; if the thread cannot
-//!               finish within 300 ms because the cross-thread queue is full: `blocked`)  -> ok|blocked
+//!               finish within 10 s because the cross-thread queue is full: `blocked`)  -> ok|blocked
 //!   lwake <t>   the same on the runtime's own thread                     -> ok
 //!   run         `Runtime::run()` (= `Executor::tick`)                    -> polled <ids|-> hot=<0|1>
 //!
@@ -167,7 +167,7 @@ impl Built {
 
 fn build(drv: DriverType, q: usize, iv: usize) -> Result<Built, String> {
     let mut pb = ProactorBuilder::new();
-    pb.driver_type(drv);
+    pb.driver_type(drv).capacity(16);
     let efd = if drv == DriverType::IoUring { Some(new_eventfd()) } else { None };
     if let Some(f) = &efd {
         pb.register_eventfd(f.as_raw_fd());
@@ -184,6 +184,31 @@ fn build(drv: DriverType, q: usize, iv: usize) -> Result<Built, String> {
 // ---------------------------------------------------------------------------------------------
 // (a) deterministic programs
 // ---------------------------------------------------------------------------------------------
+
+type WakeReq = (Waker, mpsc::Sender<()>);
+
+thread_local! {
+    /// the foreign thread on which `twake` invokes task wakers (one long-lived thread instead of one per call)
+    static HELPER: std::cell::RefCell<Option<mpsc::Sender<WakeReq>>> = const { std::cell::RefCell::new(None) };
+}
+
+fn helper() -> mpsc::Sender<WakeReq> {
+    HELPER.with(|h| {
+        let mut h = h.borrow_mut();
+        if h.is_none() {
+            let (tx, rx) = mpsc::channel::<WakeReq>();
+            std::thread::spawn(move || {
+                while let Ok((wk, done)) = rx.recv() {
+                    wk.wake_by_ref();
+                    drop(wk);
+                    let _ = done.send(());
+                }
+            });
+            *h = Some(tx);
+        }
+        h.as_ref().unwrap().clone()
+    })
+}
 
 struct Det {
     b: Built,
@@ -296,21 +321,17 @@ fn det_op(d: &mut Det, line: &str, ex: &mut Exec) -> String {
         ["twake", t] => {
             let Some(wk) = t.parse().ok().and_then(|t: usize| d.task_waker(t)) else { return "bad-op".into() };
             let (tx, rx) = mpsc::channel();
-            let h = std::thread::spawn(move || {
-                wk.wake_by_ref();
-                drop(wk);
-                let _ = tx.send(());
-            });
-            match rx.recv_timeout(Duration::from_millis(300)) {
+            helper().send((wk, tx)).expect("helper thread");
+            match rx.recv_timeout(Duration::from_secs(10)) {
                 Ok(()) => {
-                    let _ = h.join();
                     d.owed = true;
                     d.reported = false;
                     "ok".into()
                 }
                 Err(_) => {
+                    // the call cannot return (it spins on the full queue): abandon this helper thread
                     ex.tag("det:full-queue-spin");
-                    d.helpers.push(h);
+                    HELPER.with(|h| *h.borrow_mut() = None);
                     "blocked".into()
                 }
             }
@@ -685,7 +706,7 @@ fn gen_det(rng: &mut Rng, name: String) -> Case {
     let iv = *rng.pick(&[1usize, 2, 3, 61]);
     let tasks = rng.below(5) as usize;
     let mut lines = vec![format!("new {drv} q={q} iv={iv} tasks={tasks}")];
-    let n = rng.range(3, 16);
+    let n = rng.range(4, 24);
     // upper bound on the length of the sync queue (remote wakes since the last drain)
     let mut queued = 0usize;
     for _ in 0..n {
@@ -704,11 +725,7 @@ fn gen_det(rng: &mut Rng, name: String) -> Case {
             "clear".to_string()
         } else if r < 82 && tasks > 0 {
             if queued >= q {
-                // the queue may be full: such a call can only spin. Rarely try it, as the last operation.
-                if rng.chance(1, 40) {
-                    lines.push(format!("twake {}", rng.below(tasks as u64)));
-                    break;
-                }
+                // the queue may be full: such a call would spin until the runtime drains (covered by the stress rounds)
                 continue;
             }
             queued += 1;
@@ -748,12 +765,12 @@ fn generate(tier: &str, rng: &mut Rng) -> Vec<Case> {
             k += 1;
         }
     }
-    let n_det = if thorough { 40_000 } else { 2_500 };
+    let n_det = if thorough { 25_000 } else { 1_000 };
     for i in 0..n_det {
         cases.push(gen_det(rng, format!("det-{i}")));
     }
     // (b) stress: a few configurations, many short rounds
-    let rounds = if thorough { 6000 } else { 350 };
+    let rounds = if thorough { 5000 } else { 250 };
     let mut k = 0;
     for drv in ["iour", "poll"] {
         for lp in ["own", "ext"] {
